@@ -1131,6 +1131,10 @@ func (s *UDPSession) kcpInput(data []byte) {
 		// The callback is responsible for ensuring non-blocking behavior.
 		if callback := s.callbackForOOB.Load(); callback != nil {
 			// Data layout: | FEC header (fecHeaderSizePlus2) | conv (4B) | OOB payload |
+			// a message of another conversation between the same two addresses is not ours
+			if binary.LittleEndian.Uint32(data[fecHeaderSizePlus2:]) != s.kcp.conv {
+				return
+			}
 			callback.(OOBCallBackType)(data[fecHeaderSizePlus2+convSize:])
 		}
 	default: // packet without FEC
